@@ -5,19 +5,19 @@ From Coq Require Import QArith.
 Local Open Scope Z_scope.
 
 (* the lines as read when the text does not end with a terminator *)
-Fixpoint unterminate (ls : list text) : list text :=
+Fixpoint unterminate (e : text) (ls : list text) : list text :=
   match ls with
   | [] => []
   | [l] => match l with [] => [] | _ => [l] end
-  | l :: ls' => (l ++ [10]) :: unterminate ls'
+  | l :: ls' => (l ++ e) :: unterminate e ls'
   end.
 
-Lemma unterminate_cons l ls : ls <> [] -> unterminate (l :: ls) = (l ++ [10]) :: unterminate ls.
+Lemma unterminate_cons e l ls : ls <> [] -> unterminate e (l :: ls) = (l ++ e) :: unterminate e ls.
 Proof. destruct ls; [congruence|reflexivity]. Qed.
-Lemma unterminate_app a b : b <> [] -> unterminate (a ++ b) = with_lf a ++ unterminate b.
+Lemma unterminate_app e a b : b <> [] -> unterminate e (a ++ b) = with_eol e a ++ unterminate e b.
 Proof.
   intro N. induction a as [|x a IH]; [reflexivity|].
-  cbn [app with_lf map]. rewrite unterminate_cons by (destruct a; [exact N|discriminate]). rewrite IH. reflexivity.
+  cbn [app]. rewrite with_eol_cons. rewrite unterminate_cons by (destruct a; [exact N|discriminate]). rewrite IH. reflexivity.
 Qed.
 
 Lemma readlines_nolf l : no_lf l -> l <> [] -> readlines l = [l].
@@ -28,13 +28,13 @@ Proof.
   rewrite IH by (auto; discriminate). reflexivity.
 Qed.
 
-Lemma readlines_join_nofinal ls : Forall no_lf ls -> readlines (join_lines [10] false ls) = unterminate ls.
+Lemma readlines_join_nofinal e ls : eol_ok e -> Forall no_lf ls -> readlines (join_lines e false ls) = unterminate e ls.
 Proof.
-  induction 1 as [|l ls Hl Hls IH]; [reflexivity|].
+  intro Ee. induction 1 as [|l ls Hl Hls IH]; [reflexivity|].
   destruct ls as [|l' ls'].
   - cbn [join_lines unterminate]. destruct l; [reflexivity|]. apply readlines_nolf; auto; discriminate.
-  - change (join_lines [10] false (l :: l' :: ls')) with (l ++ [10] ++ join_lines [10] false (l' :: ls')).
-    cbn [app]. rewrite readlines_line by auto. rewrite IH. reflexivity.
+  - change (join_lines e false (l :: l' :: ls')) with (l ++ e ++ join_lines e false (l' :: ls')).
+    rewrite readlines_line_e by auto. rewrite IH. reflexivity.
 Qed.
 
 Lemma universal_nocr l : no_cr l -> universal l = l.
@@ -43,15 +43,17 @@ Proof.
   cbn [forallb] in H. apply andb_true_iff in H as [H1 H2]. cbn [universal].
   destruct (c =? 13) eqn:E; [discriminate|]. rewrite IH by auto. reflexivity.
 Qed.
-Lemma universal_join_nofinal ls : Forall no_cr ls ->
-  universal (join_lines [13;10] false ls) = join_lines [10] false ls.
+Lemma universal_join_nofinal e ls : eol_ok e -> Forall no_cr ls ->
+  universal (join_lines e false ls) = join_lines [10] false ls.
 Proof.
-  induction 1 as [|l ls Hl Hls IH]; [reflexivity|].
+  intro Ee. induction 1 as [|l ls Hl Hls IH]; [reflexivity|].
   destruct ls as [|l' ls'].
   - cbn [join_lines]. apply universal_nocr; auto.
-  - change (join_lines [13;10] false (l :: l' :: ls')) with (l ++ [13;10] ++ join_lines [13;10] false (l' :: ls')).
+  - change (join_lines e false (l :: l' :: ls')) with (l ++ e ++ join_lines e false (l' :: ls')).
     change (join_lines [10] false (l :: l' :: ls')) with (l ++ [10] ++ join_lines [10] false (l' :: ls')).
-    cbn [app]. rewrite universal_line by auto. rewrite IH. reflexivity.
+    destruct Ee as [E|E]; subst e; cbn [app].
+    + rewrite universal_lf_line by auto. rewrite IH. reflexivity.
+    + rewrite universal_line by auto. rewrite IH. reflexivity.
 Qed.
 
 (* ---- lines without terminator are classified like the terminated ones *)
@@ -61,21 +63,15 @@ Proof.
   rewrite forallb_forall in *. auto using blank_is_space.
 Qed.
 Lemma nonblank_line' l : negb (all_ws l) = true -> is_blank l = false.
-Proof.
-  intro H. unfold is_blank. destruct l as [|c l]; [reflexivity|].
-  apply negb_true_iff in H. unfold all_ws in H.
-  destruct (forallb is_space (c :: l)) eqn:F; [|reflexivity].
-  assert (forallb ws_char (c :: l) = true); [|congruence].
-  rewrite forallb_forall in *. auto using space_is_ws.
-Qed.
+Proof. intro H. rewrite <- (app_nil_r l). apply nonblank_line; auto. Qed.
 Lemma nonblank_nonempty l : negb (all_ws l) = true -> l <> [].
 Proof. intros H E. subst. discriminate. Qed.
 
 (* blank lines at the end of the file, in COUNTER mode *)
-Lemma run_unterminated_blanks bs : forall d tm att tx, forallb (forallb blank_char) bs = true ->
-  run (unterminate bs) (mkM COUNTER d tm att tx) = Ok d.
+Lemma run_unterminated_blanks e bs : eol_ok e -> forall d tm att tx, forallb (forallb blank_char) bs = true ->
+  run (unterminate e bs) (mkM COUNTER d tm att tx) = Ok d.
 Proof.
-  induction bs as [|b bs IH]; intros d tm att tx H; [reflexivity|].
+  intro Ee. induction bs as [|b bs IH]; intros d tm att tx H; [reflexivity|].
   cbn [forallb] in H. apply andb_true_iff in H as [H1 H2].
   destruct bs as [|b' bs'].
   - cbn [unterminate]. destruct b as [|c b]; [reflexivity|].
@@ -84,62 +80,35 @@ Proof.
     unfold step. cbn [m_mode]. rewrite blank_line_is_blank by auto. reflexivity.
 Qed.
 
-(* text lines up to the end of the file, the last one without terminator *)
-Lemma run_unterminated_text ls : forall d tm tx, ls <> [] -> forallb (fun l => negb (all_ws l)) ls = true ->
-  run (unterminate ls) (mkM TEXT_MORE d tm true tx) = at_eof (mkM TEXT_MORE d tm true (tx ++ concat (unterminate ls))).
+(* text lines up to the end of the file, the last one without terminator: the accumulated text is the same as
+   with terminators, because every line is stripped of its terminator and given a line feed *)
+Lemma run_unterminated_text e ls : eol_ok e -> forall d tm tx, ls <> [] -> forallb (fun l => negb (all_ws l)) ls = true -> clean_lines ls ->
+  run (unterminate e ls) (mkM TEXT_MORE d tm true tx) = at_eof (mkM TEXT_MORE d tm true (tx ++ concat (with_lf ls))).
 Proof.
-  induction ls as [|l ls IH]; intros d tm tx N H; [congruence|].
-  cbn [forallb] in H. apply andb_true_iff in H as [H1 H2].
+  intro Ee. induction ls as [|l ls IH]; intros d tm tx N H [C1 C2]; [congruence|].
+  cbn [forallb] in H. apply andb_true_iff in H as [H1 H2]. inversion C1; subst. inversion C2; subst.
   destruct ls as [|l' ls'].
   - cbn [unterminate]. pose proof (nonblank_nonempty l H1). destruct l as [|c l]; [congruence|].
-    cbn [run concat]. unfold step. cbn [m_mode]. rewrite nonblank_line' by auto. rewrite app_nil_r. reflexivity.
+    cbn [run]. unfold step. cbn [m_mode]. rewrite nonblank_line' by auto.
+    cbn [m_done m_times m_attached m_text].
+    rewrite <- (app_nil_r (c :: l)) at 1. rewrite rstrip_line by auto.
+    unfold with_lf. rewrite with_eol_cons. cbn [with_eol map concat]. rewrite app_nil_r. reflexivity.
   - rewrite unterminate_cons by discriminate. erewrite run_continue.
     2:{ unfold step. cbn [m_mode]. rewrite nonblank_line by auto. reflexivity. }
-    cbn [m_done m_times m_attached m_text]. rewrite IH by (auto; discriminate).
-    cbn [concat]. rewrite !app_assoc. reflexivity.
-Qed.
-
-Lemma concat_unterminate ls : ls <> [] -> last ls [] <> [] -> concat (with_lf ls) = concat (unterminate ls) ++ [10].
-Proof.
-  induction ls as [|l ls IH]; intros N L; [congruence|].
-  destruct ls as [|l' ls'].
-  - cbn [last] in L. destruct l; [congruence|]. cbn [unterminate with_lf map concat]. rewrite !app_nil_r. reflexivity.
-  - rewrite unterminate_cons by discriminate.
-    change (with_lf (l :: l' :: ls')) with ((l ++ [10]) :: with_lf (l' :: ls')). cbn [concat].
-    rewrite IH by (auto; discriminate). rewrite app_assoc. reflexivity.
-Qed.
-
-Lemma last_in_nonblank ls : ls <> [] -> forallb (fun l => negb (all_ws l)) ls = true -> last ls [] <> [].
-Proof.
-  intros N H. rewrite forallb_forall in H.
-  destruct (exists_last N) as (a & z & E). subst. rewrite last_last. apply nonblank_nonempty. apply H.
-  apply in_or_app. right. left. reflexivity.
-Qed.
-
-Lemma finish_cue_good' c d tm : cue_wf c -> cue_ok c ->
-  finish_cue (mkM TEXT_MORE d tm true (concat (unterminate (payload_lines (c_payload c))))) =
-  Continue (mkM COUNTER (d ++ [mkP (fst tm) (snd tm) (kids_of (c_payload c))]) tm true
-                (concat (unterminate (payload_lines (c_payload c))))).
-Proof.
-  intros W [G Cr]. unfold finish_cue. cbn [m_attached m_text m_done m_times].
-  pose proof (w_lines c W) as L.
-  assert (E : concat (unterminate (payload_lines (c_payload c))) = print_nodes (c_payload c)).
-  { pose proof (concat_unterminate _ (payload_lines_nonempty (c_payload c)) (last_in_nonblank _ (payload_lines_nonempty _) L)) as Q.
-    rewrite payload_lines_split in Q at 1. rewrite concat_split_lf in Q. apply app_inj_tail in Q. destruct Q as [Q _]. symmetry. exact Q. }
-  rewrite E. rewrite rewrite_text_rw. rewrite payload_lines_split in L.
-  pose proof (strip_lines (print_nodes (c_payload c)) false Cr L) as SL. cbn iota in SL. rewrite app_nil_r in SL. rewrite SL.
-  destruct G as (k & P & F). unfold kids_of. rewrite P. reflexivity.
+    cbn [m_done m_times m_attached m_text]. rewrite rstrip_line by auto. rewrite IH by (auto; try discriminate; split; auto).
+    unfold with_lf. rewrite (with_eol_cons [10] l). cbn [concat]. rewrite !app_assoc. reflexivity.
 Qed.
 
 (* the last cue, read up to the end of a file without final terminator *)
-Lemma run_cue_unterminated c d tm att tx : cue_wf c -> cue_ok c ->
-  run (unterminate (cue_lines c)) (mkM COUNTER d tm att tx) = Ok (d ++ [pcue_of c]).
+Lemma run_cue_unterminated e c d tm att tx : eol_ok e -> cue_wf c -> cue_ok c ->
+  run (unterminate e (cue_lines c)) (mkM COUNTER d tm att tx) = Ok (d ++ [pcue_of c]).
 Proof.
-  intros W G. unfold cue_lines.
+  intros Ee W G. unfold cue_lines.
   pose proof (payload_lines_nonempty (c_payload c)) as PN.
+  pose proof (payload_clean c G) as PC.
   rewrite unterminate_cons by discriminate.
   erewrite run_continue.
-  2:{ unfold step. cbn [m_mode]. destruct (counter_line _ (w_counter c W)) as [A1 A2]. rewrite A1, A2. reflexivity. }
+  2:{ unfold step. cbn [m_mode]. destruct (counter_line _ e (w_counter c W)) as [A1 A2]. rewrite A1, A2. reflexivity. }
   cbn [m_done m_times m_attached m_text].
   rewrite unterminate_cons by (destruct (payload_lines (c_payload c)); [congruence|discriminate]).
   erewrite run_continue; [|apply step_timing; auto].
@@ -148,19 +117,21 @@ Proof.
     rewrite app_nil_r.
     destruct (payload_lines (c_payload c)) as [|l ls] eqn:EP; [congruence|].
     pose proof (w_lines c W) as L. rewrite EP in L. cbn [forallb] in L. apply andb_true_iff in L as [L1 L2].
+    destruct PC as [C1 C2]. inversion C1; subst. inversion C2; subst.
+    pose proof (finish_cue_good c d (clock_seconds (c_begin c), clock_seconds (c_end c)) W G) as F. rewrite EP in F.
     destruct ls as [|l' ls'].
     + (* a single line without terminator *)
       cbn [unterminate]. pose proof (nonblank_nonempty l L1). destruct l as [|x l]; [congruence|].
       cbn [run]. unfold step at 1. cbn [m_mode]. rewrite nonblank_line' by auto.
-      cbn [m_done m_times]. cbn [at_eof m_mode].
-      pose proof (finish_cue_good' c d (clock_seconds (c_begin c), clock_seconds (c_end c)) W G) as F.
-      rewrite EP in F. cbn [unterminate concat] in F. rewrite app_nil_r in F. rewrite F. reflexivity.
+      cbn [m_done m_times]. rewrite <- (app_nil_r (x :: l)) at 1. rewrite rstrip_line by auto.
+      cbn [at_eof m_mode].
+      unfold with_lf in F. rewrite with_eol_cons in F. cbn [with_eol map concat] in F. rewrite app_nil_r in F. rewrite F. reflexivity.
     + rewrite unterminate_cons by discriminate. erewrite run_continue.
       2:{ unfold step. cbn [m_mode]. rewrite nonblank_line by auto. reflexivity. }
-      cbn [m_done m_times]. rewrite run_unterminated_text by (auto; discriminate).
+      cbn [m_done m_times]. rewrite rstrip_line by auto.
+      rewrite run_unterminated_text by (auto; try discriminate; split; auto).
       cbn [at_eof m_mode].
-      pose proof (finish_cue_good' c d (clock_seconds (c_begin c), clock_seconds (c_end c)) W G) as F.
-      rewrite EP in F. rewrite unterminate_cons in F by discriminate. cbn [concat] in F. rewrite F. reflexivity.
+      unfold with_lf in F. rewrite (with_eol_cons [10] l) in F. cbn [concat] in F. unfold with_lf. rewrite F. reflexivity.
   - (* blank lines follow the text *)
     rewrite unterminate_app by discriminate.
     rewrite run_payload by (auto using w_lines).
@@ -178,10 +149,10 @@ Qed.
 Lemma cue_lines_nonempty c : cue_lines c <> [].
 Proof. unfold cue_lines. discriminate. Qed.
 
-Lemma run_cues_unterminated cs : wf_cues cs = true -> Forall cue_ok cs -> cs <> [] -> forall d tm att tx,
-  run (unterminate (flat_map cue_lines cs)) (mkM COUNTER d tm att tx) = Ok (d ++ map pcue_of cs).
+Lemma run_cues_unterminated e cs : eol_ok e -> wf_cues cs = true -> Forall cue_ok cs -> cs <> [] -> forall d tm att tx,
+  run (unterminate e (flat_map cue_lines cs)) (mkM COUNTER d tm att tx) = Ok (d ++ map pcue_of cs).
 Proof.
-  induction cs as [|c cs IH]; intros W G N d tm att tx; [congruence|].
+  intro Ee. induction cs as [|c cs IH]; intros W G N d tm att tx; [congruence|].
   inversion G as [|? ? Gc Gs]; subst. cbn [flat_map map].
   destruct cs as [|c' cs'].
   - cbn [wf_cues] in W. destruct (wf_cue_fields _ _ W) as [Wc _].
@@ -193,10 +164,10 @@ Proof.
     rewrite run_cue by auto. rewrite IH by (auto; discriminate). rewrite <- app_assoc. reflexivity.
 Qed.
 
-Lemma run_file_unterminated f : wf_file f = true -> Forall cue_ok (f_cues f) ->
-  run (unterminate (file_lines f)) m_init = Ok (map pcue_of (f_cues f)).
+Lemma run_file_unterminated e f : eol_ok e -> wf_file f = true -> Forall cue_ok (f_cues f) ->
+  run (unterminate e (file_lines f)) m_init = Ok (map pcue_of (f_cues f)).
 Proof.
-  intros W G. unfold wf_file in W. apply andb_true_iff in W as [WL WC]. unfold file_lines, m_init.
+  intros Ee W G. unfold wf_file in W. apply andb_true_iff in W as [WL WC]. unfold file_lines, m_init.
   destruct (f_cues f) as [|c cs] eqn:EC.
   - cbn [flat_map map]. rewrite app_nil_r. apply run_unterminated_blanks; auto.
   - rewrite unterminate_app.
@@ -211,31 +182,25 @@ Proof.
   intros W G. destruct (f_final_eol f) eqn:Fe; [apply roundtrip_file; auto|].
   destruct (file_lines_no_eol f W G) as [L1 L2].
   unfold read_cues_file, to_model_file, to_model.
-  assert (R : readlines (universal (print_file f)) = unterminate (file_lines f)).
-  { unfold print_file. rewrite Fe. destruct (f_crlf f); cbn [eol].
-    - rewrite universal_join_nofinal by auto. apply readlines_join_nofinal; auto.
-    - rewrite universal_nocr; [apply readlines_join_nofinal; auto|].
-      (* no CR in the joined text *)
-      clear - L2. unfold no_cr. induction L2 as [|l ls Hl Hls IH]; [reflexivity|].
-      destruct ls as [|l' ls']; [exact Hl|].
-      change (join_lines [10] false (l :: l' :: ls')) with (l ++ [10] ++ join_lines [10] false (l' :: ls')).
-      rewrite !forallb_app. rewrite Hl, IH. reflexivity. }
-  rewrite R. rewrite run_file_unterminated by auto. cbn [outcome_map]. rewrite observe_all by auto. reflexivity.
+  assert (R : readlines (universal (print_file f)) = unterminate [10] (file_lines f)).
+  { unfold print_file. rewrite Fe. rewrite universal_join_nofinal by auto using eol_ok_eol.
+    apply readlines_join_nofinal; auto. left; reflexivity. }
+  rewrite R. rewrite run_file_unterminated by (auto; left; reflexivity). cbn [outcome_map]. rewrite observe_all by auto. reflexivity.
 Qed.
 
-Theorem roundtrip_lf_any f : wf_file f = true -> f_crlf f = false -> Forall cue_ok (f_cues f) ->
+Theorem roundtrip_stream_any f : wf_file f = true -> Forall cue_ok (f_cues f) ->
   read_cues (print_file f) = Ok (cues f).
 Proof.
-  intros W C G. destruct (f_final_eol f) eqn:Fe; [apply roundtrip_lf; auto|].
+  intros W G. destruct (f_final_eol f) eqn:Fe; [apply roundtrip_stream; auto|].
   destruct (file_lines_no_eol f W G) as [L1 L2].
-  unfold read_cues, to_model. unfold print_file. rewrite Fe, C. cbn [eol].
-  rewrite readlines_join_nofinal by auto.
-  rewrite run_file_unterminated by auto. cbn [outcome_map]. rewrite observe_all by auto. reflexivity.
+  unfold read_cues, to_model. unfold print_file. rewrite Fe.
+  rewrite readlines_join_nofinal by auto using eol_ok_eol.
+  rewrite run_file_unterminated by auto using eol_ok_eol. cbn [outcome_map]. rewrite observe_all by auto. reflexivity.
 Qed.
 
 Theorem roundtrip_plain_file_any f : wf_file f = true -> plain_file f = true ->
-  trigger_backslash f = false -> read_cues_file (print_file f) = Ok (cues f).
+  read_cues_file (print_file f) = Ok (cues f).
 Proof. intros. apply roundtrip_file_any; auto using plain_cues_ok. Qed.
-Theorem roundtrip_plain_lf_any f : wf_file f = true -> f_crlf f = false -> plain_file f = true ->
-  trigger_backslash f = false -> read_cues (print_file f) = Ok (cues f).
-Proof. intros. apply roundtrip_lf_any; auto using plain_cues_ok. Qed.
+Theorem roundtrip_plain_stream_any f : wf_file f = true -> plain_file f = true ->
+  read_cues (print_file f) = Ok (cues f).
+Proof. intros. apply roundtrip_stream_any; auto using plain_cues_ok. Qed.
